@@ -9,7 +9,7 @@ import gen_cube as G
 ID = "C14"
 LEAN_MODULES = ["CatiiProps.C14"]
 RULE = ("exhaustive: every list of 1..3 one-axis dims over N<=3 rows, values < 2, every common; random: 1..4 dims, N<=40, "
-        "extents 1..5, commons frequent/rare/absent; the same with explicit entries that list no row added to the dimensions. Observed: ccube(dims).interactions() as a multiset of (coords, row ids). "
+        "extents 1..5, commons frequent/rare/absent; the same with explicit entries that list no row added to the dimensions; every third random cube is walked again after 1-3 in-place changes of its dimensions (update of a cell, shift_common(v)). Observed: ccube(dims).interactions() as a multiset of (coords, row ids). "
         "Non-trivial = at least one item delivered; distinct by (dense columns, commons)")
 ASSUMPTIONS = ["dict iteration order is not part of the property: deliveries are compared as multisets"]
 
@@ -93,6 +93,47 @@ def check(ctx, case, reqs, pend):
             cls="C14-wrong-deliveries")
     reqs.append({"op": "walk", "dims": G.dims_to_model(idxs)})
     pend.append((desc, got))
+    if case.get("live") and all(d.ndim == 1 for d in dense) and len(dense[0]) > 0:
+        live_walk(ctx, case, idxs)
+
+
+def live_walk(ctx, case, idxs):
+    """ONE cube object walked, one of its dimensions changed in place (cells re-assigned with update(), or the common
+    value moved with shift_common(v)), and the same cube walked again: it presents the combinations of its dimensions
+    as they are now"""
+    from catii import ccube
+    dense = [d.copy() for d in case["dense"]]
+    cube = ccube(idxs)
+    hist = []
+    try:
+        observe(cube)
+        for _step in range(ctx.rng.randrange(1, 4)):
+            j = ctx.rng.randrange(len(idxs))
+            if ctx.rng.random() < 0.6:
+                present = sorted(set(int(v) for v in dense[j].tolist()) | {int(idxs[j].common)})
+                r = ctx.rng.randrange(len(dense[j]))
+                v = ctx.rng.choice(present + [max(present) + 1])
+                idxs[j].update({(int(v),): np.array([r], dtype=np.uint32)})
+                dense[j][r] = v
+                hist.append(["update", j, int(v), int(r)])
+            else:
+                v = ctx.rng.choice(sorted(set(int(x) for x in dense[j].tolist())) + [int(idxs[j].common)])
+                idxs[j].shift_common(int(v))
+                hist.append(["shift_common", j, int(v)])
+            got = observe(cube)
+            desc = {"dense": [d.tolist() for d in case["dense"]], "commons": case["commons"], "live_cube_then": hist}
+            ctx.case(desc, nontrivial=True)
+            ctx.hit("live_cube_walked_again")
+            exp = spec_items(dense, idxs)
+            if sorted(got) != exp:
+                extra = [g for g in got if g not in exp]
+                miss = [e for e in exp if e not in got]
+                ctx.oracle_fail("a cube walked again after %s delivered a different multiset: %d extra %s, %d missing %s" % (
+                    hist[-1], len(extra), str(extra[:2]), len(miss), str(miss[:2])), desc, cls="C14-wrong-deliveries")
+                return
+    except Exception as e:
+        ctx.oracle_fail("walking a cube again after %s raised %s: %s" % (hist, type(e).__name__, str(e)[:80]),
+                        {"dense": [d.tolist() for d in case["dense"]], "commons": case["commons"], "live_cube_then": hist}, cls="C14-raises")
 
 
 def run(ctx):
@@ -101,9 +142,10 @@ def run(ctx):
     for case in G.exhaustive_small(3, 3, 2):
         check(ctx, case, reqs, pend)
     ctx.exhaustive.append("all lists of 1..3 one-axis dims, N<=3, values<2, every common")
-    for _ in range(ctx.n(300)):
+    for it in range(ctx.n(300)):
         case = G.gen_dims(ctx.rng)
         if case["dense"]:
+            case["live"] = it % 3 == 0
             check(ctx, case, reqs, pend)
     # dimensions carrying explicit entries that list no row: they match no row, so nothing is presented for them
     for case in G.exhaustive_small(2, 2, 2):
